@@ -33,9 +33,9 @@ VALUES_MATCHER_OK = ['wl_surface', '.commit', 'A: wl_pointer, wl_surface.[commit
                      '(x=0, y=0)', '.set_title("my app")', 'wl_pointer.[! motion, frame]', '5b', '.("a\\b")', ".('q')", 'żółć_*', '(="-r")', 'x -r y',
                      '.set_title("C:\\\\dir\\\\n")', '.x("\\")', '*', '!', '.set_title("\U0001F600 \U0001D4D0")', '.x("\u2028\x7f")']
 VALUES_MATCHER_BAD = ['[', 'a.b.c', '(', 'a@b@c', '"', 'wl_surface@3', 'a!b!c', 'x(']
-VALUES_PATH = ['\U0001F600.log', 'dir\U00020000/x', 'file.log', '/tmp/x y.log', 'dir/with"quote', 'back\\slash', 'ünï.log', "it's.log", 'a b c', '$HOME', '`x`', '%s', 'tab\there']
+VALUES_PATH = ['\U0001F600.log', 'dir\U00020000/x', 'file.log', '/tmp/x y.log', 'dir/with"quote', 'back\\slash', 'ünï.log', "it's.log", 'a b c', '$HOME', '`x`', '%s', 'tab\there', '', ' ', '-', '0']
 WORDS = ['\U0001F600', 'prog', 'arg1', '-f', 'x', '-r', '--run', '-g', '--gdb', '--', '', 'a b', '-Cr', '--args', '--ex', 'r', 'q', '-l', 'file', '"q"', 'back\\n', "'s'", 'żółć',
-         '-p', '--supress', '-b', '*', '-Cg']
+         '-p', '--supress', '-b', '*', '-Cg', '-lrt', '-rn', '-ggdb', '-vgC', '-gr', '-rf', '--load', '-rC', '-grr']
 
 
 def plan(tier, seed):
